@@ -161,6 +161,8 @@ package evm
 //@   ensures  [exactly-the-lower-nonces-removed] forall(k, Int, has(m.items, k) == (old(has(m.items, k)) && k >= threshold))
 //@   ensures  [kept-transactions-untouched] forall(k, Int, has(m.items, k) ==> m.items[k] == old(m.items[k]))
 //@   ensures  [removed-are-returned] len(result) == old(len(m.items)) - len(m.items)
+// the cached sorted list (lowest nonce first) is advanced past exactly the removed prefix
+//@   onwrite  txSortedMap.cache assert [cache-advanced-past-the-removed-prefix] arr(newval) == arr(old(m.cache)) && off(newval) == off(old(m.cache)) + len(removed) && len(newval) == len(old(m.cache)) - len(removed)
 //@   ensures  wfTSM(m)
 //@   loop 0 invariant wfTSMcore(m)
 //@   loop 0 invariant len(removed) == old(len(m.items)) - len(m.items)
